@@ -10,7 +10,7 @@ NOTE = ("Trusted base: Lean 4.33 kernel; axioms propext, Classical.choice, Quot.
         "#print axioms on every run; no sorry/admit/native_decide/bv_decide/own axioms); translator/*.py "
         "(clang typed AST -> Lean, fail-closed); correspondence harness built from /repo's working tree "
         "(ASan+UBSan+_GLIBCXX_ASSERTIONS) and comparer; IEEE binary32 rounding, libm, FFTW, HDF5, boost "
-        "are modelled/assumed, not verified. 25 translator fragments regenerate Gen/*.lean from the working tree on "
+        "are modelled/assumed, not verified. 26 translator fragments regenerate Gen/*.lean from the working tree on "
         "every run; hand-model definitions are proved equal to the regenerated ones in Props/Tie*.lean (one module per "
         "fragment), which the checks that depend on them list among their proof obligations. ")
 
